@@ -8,4 +8,5 @@ let () =
   | [| _; "grid" |] -> Grid_driver.run ()
   | [| _; "nn" |] -> Nn_driver.run ()
   | [| _; "codec" |] -> Codec_driver.run ()
+  | [| _; "vss" |] -> Vss_driver.run ()
   | _ -> prerr_endline "usage: ompl_model <heap|...>"; exit 2
